@@ -46,6 +46,7 @@ class Executor:
         self.inline = inline or {}              # function name -> ast.FunctionDef to inline (pure int helpers)
         self.decls = []                         # fresh opaque symbols (declared as Int, unconstrained)
         self.max_paths = max_paths
+        self.side = []                          # side conditions under which a translation is exact (bit operators)
 
     # ---------------------------------------------------------------- expressions
     def opaque(self, hint='o'):
@@ -131,6 +132,20 @@ class Executor:
                 if not (_is_num(x) or _is_num(y)):
                     raise Untranslatable(node, '(symbolic * symbolic)')
                 return I(f'(* {x} {y})')
+            if isinstance(node.op, (ast.BitOr, ast.BitAnd, ast.BitXor)):
+                # exact for non-negative operands below 2**64 (recorded as a side condition of the translation)
+                op = {ast.BitOr: 'bvor', ast.BitAnd: 'bvand', ast.BitXor: 'bvxor'}[type(node.op)]
+                for t in (x, y):
+                    if not _is_num(t):
+                        self.side.append(f'(and (>= {t} 0) (< {t} 18446744073709551616))')
+                    elif int(t) < 0:
+                        raise Untranslatable(node, '(bit operator on a negative constant)')
+                return I(f'(bv2nat ({op} ((_ int2bv 64) {x}) ((_ int2bv 64) {y})))')
+            if isinstance(node.op, (ast.LShift, ast.RShift)):
+                if not _is_num(y) or int(y) < 0 or int(y) > 64:
+                    raise Untranslatable(node, '(shift by a non-constant)')
+                k = 2 ** int(y)
+                return I(f'(* {x} {k})') if isinstance(node.op, ast.LShift) else I(f'(div {x} {k})')
             if isinstance(node.op, (ast.FloorDiv, ast.Mod)):
                 if not _is_num(y) or int(y) <= 0:
                     raise Untranslatable(node, '(division by a non-constant or non-positive value)')
